@@ -15,11 +15,11 @@
 (***************************************************************************)
 EXTENDS Commitments, TLC, FiniteSets, SequencesExt
 
-CONSTANTS KIND,     \* "v1" | "payload" | "v2" | "ack"
+CONSTANTS KINDS,    \* subset of {"v1", "payload", "v2", "ack"}
           DEEP,     \* larger alphabet
           HLEN, WLEN
 
-VARIABLES i, j
+VARIABLES KIND, i, j
 
 A == [b |-> "a"]
 Bb == [b |-> "b"]
@@ -60,28 +60,31 @@ Lists(S, lo, hi) == UNION { [1..n -> S] : n \in lo..hi }
 V2s == [dest : {<<A>>, <<A, A>>}, ts : 0..1, pls : Lists({P1, P2, P3}, 1, MaxPls), seq : {1, 2}]
 Acks == Lists(Str, 0, 3)
 
-Dom == CASE KIND = "v1" -> V1s [] KIND = "payload" -> Pls [] KIND = "v2" -> V2s [] KIND = "ack" -> Acks
-D == SetToSeq(Dom)
+DomOf(k) == CASE k = "v1" -> V1s [] k = "payload" -> Pls [] k = "v2" -> V2s [] k = "ack" -> Acks
+DAll == [k \in KINDS |-> SetToSeq(DomOf(k))]
+D == DAll[KIND]
 
 Commit(x) == CASE KIND = "v1" -> CommitV1(x) [] KIND = "payload" -> HashPayload(x) [] KIND = "v2" -> CommitV2(x) [] KIND = "ack" -> CommitAckV2(x)
-Fields(x) == CASE KIND = "v1" -> FieldsV1(x) [] KIND = "payload" -> FieldsPl(x) [] KIND = "v2" -> FieldsV2(x) [] KIND = "ack" -> x
+FieldsK(k, x) == CASE k = "v1" -> FieldsV1(x) [] k = "payload" -> FieldsPl(x) [] k = "v2" -> FieldsV2(x) [] k = "ack" -> x
+Fields(x) == FieldsK(KIND, x)
 
 \* ---- negative controls: the same fields without the length-fixing hash / padding ----------
-BadPre(x) ==
-    CASE KIND = "v1"      -> MinBits(x.ts) \o MinBits(x.rn) \o MinBits(x.rh) \o Flat(TH(TBytes(x.data)))
-      [] KIND = "payload" -> x.sp \o x.dp \o x.ver \o x.enc \o x.val
-      [] KIND = "v2"      -> Flat(TCat(<<TByte(2), TH(TBytes(x.dest)), TH(TBE(x.ts)),
+BadPre(k, x) ==
+    CASE k = "v1"      -> MinBits(x.ts) \o MinBits(x.rn) \o MinBits(x.rh) \o Flat(TH(TBytes(x.data)))
+      [] k = "payload" -> x.sp \o x.dp \o x.ver \o x.enc \o x.val
+      [] k = "v2"      -> Flat(TCat(<<TByte(2), TH(TBytes(x.dest)), TH(TBE(x.ts)),
                                        TH(TCat([n \in DOMAIN x.pls |-> TCat(<<TBytes(x.pls[n].sp), TBytes(x.pls[n].dp), TBytes(x.pls[n].ver),
                                                                               TBytes(x.pls[n].enc), TBytes(x.pls[n].val)>>)]))>>))
-      [] KIND = "ack"     -> Flat(TCat(<<TByte(2)>> \o [n \in DOMAIN x |-> TBytes(x[n])]))
-NegativeControl == \E x \in Dom, y \in Dom : Fields(x) # Fields(y) /\ BadPre(x) = BadPre(y)
+      [] k = "ack"     -> Flat(TCat(<<TByte(2)>> \o [n \in DOMAIN x |-> TBytes(x[n])]))
+NegativeControl(k) == \E x \in DomOf(k), y \in DomOf(k) : FieldsK(k, x) # FieldsK(k, y) /\ BadPre(k, x) = BadPre(k, y)
 \* (a false ASSUME stops TLC: the injectivity check would prove nothing about layouts)
-ASSUME NegativeControl /\ PrintT(<<"WITNESS", "negative-control-collides">>)
+ASSUME \A k \in KINDS : NegativeControl(k) /\ PrintT(<<"WITNESS", "negative-control-collides:" \o k>>)
 
 \* ---- vacuity witnesses --------------------------------------------------------------------
-Kinds == <<"same-fields", "one-field-differs", "boundary-moved", "uncommitted-field-differs", "order-differs", "negative-control-collides">>
-Idx(name) == CHOOSE n \in DOMAIN Kinds : Kinds[n] = name
-Witness(name) == IF TLCGet(Idx(name)) = 0 THEN TLCSet(Idx(name), 1) /\ PrintT(<<"WITNESS", name>>) ELSE TRUE
+Kinds == <<"same-fields", "one-field-differs", "boundary-moved", "uncommitted-field-differs", "order-differs">>
+AllKinds == <<"v1", "payload", "v2", "ack">>
+Idx(name) == 10 * (CHOOSE n \in DOMAIN AllKinds : AllKinds[n] = KIND) + (CHOOSE n \in DOMAIN Kinds : Kinds[n] = name)
+Witness(name) == IF TLCGet(Idx(name)) = 0 THEN TLCSet(Idx(name), 1) /\ PrintT(<<"WITNESS", name \o ":" \o KIND>>) ELSE TRUE
 DiffFields(f, g) == IF DOMAIN f = DOMAIN g THEN Cardinality({ n \in DOMAIN f : f[n] # g[n] }) ELSE 99
 Raw(x) == CASE KIND = "v1" -> x.data [] KIND = "payload" -> x.sp \o x.dp \o x.ver \o x.enc \o x.val
             [] KIND = "v2" -> x.dest [] KIND = "ack" -> FlatAll([n \in DOMAIN x |-> TBytes(x[n])])
@@ -94,10 +97,10 @@ Observe(x, y) ==
     /\ (KIND = "v2" /\ x.dest = y.dest /\ x.ts = y.ts /\ IsPerm(x.pls, y.pls) => Witness("order-differs"))
     /\ (KIND = "ack" /\ IsPerm(x, y) => Witness("order-differs"))
 
-Init == /\ i \in DOMAIN D /\ j = 1
-        /\ \A n \in DOMAIN Kinds : TLCSet(n, 0)
-Next == j < Len(D) /\ j' = j + 1 /\ i' = i /\ Observe(D[i], D[j'])
-Spec == Init /\ [][Next]_<<i, j>>
+Init == /\ KIND \in KINDS /\ i \in DOMAIN D /\ j = 1
+        /\ \A n \in 1..50 : TLCSet(n, 0)
+Next == j < Len(D) /\ j' = j + 1 /\ i' = i /\ KIND' = KIND /\ Observe(D[i], D[j'])
+Spec == Init /\ [][Next]_<<KIND, i, j>>
 
 \* equal preimages only for equal committed fields; and the commitment is a function of the committed fields only
 Injective == LET x == D[i]  y == D[j] IN
